@@ -170,6 +170,15 @@ pub struct WorkerArgs {
 }
 
 pub fn worker(check: &dyn Check, ctx: &Ctx, a: &WorkerArgs) -> i32 {
+    // A worker whose coordinator is gone (killed, crashed) must not keep running: a case that
+    // hangs inside the code under test would otherwise spin for ever as an orphan.
+    let parent = std::os::unix::process::parent_id();
+    std::thread::spawn(move || loop {
+        std::thread::sleep(std::time::Duration::from_secs(2));
+        if std::os::unix::process::parent_id() != parent {
+            std::process::exit(4);
+        }
+    });
     install_panic_hook(true);
     let mut agg = WorkerAgg::new();
     let mut sample_budget = 2usize;
